@@ -90,6 +90,17 @@ class C15(Prop):
             self._by = {(r["ty"], r["method"]): r for r in self._rows}
         return self._rows
 
+    @property
+    def extra_coverage(self):
+        rows = self.rows()
+        prs = ga.pairs(rows)
+        return {"accessor_rows": len(rows),
+                "getters": sum(1 for r in rows if r["role"] == "RGetter"), "setters": sum(1 for r in rows if r["role"] == "RSetter"),
+                "getter_setter_pairs": sum(1 for g, s in prs if g is not None),
+                "hand_modelled": sorted(f'{r["ty"]}::{r["method"]}' for r in rows if "CHand" in r["codec"] and r["role"] != "ROther"),
+                "unrecognised": sorted(f'{r["ty"]}::{r["method"]}' for r in rows if "Unrecognised" in r["codec"]),
+                "shipped_defect_rows": sorted(f'{r["ty"]}::{r["method"]}' for r in rows if ".shipped" in r["codec"] or r["op"] == "OInsert")}
+
     def streams(self, tier, rng):
         rows = self.rows()
         nv = {"quick": 3, "search": 6, "thorough": 60}[tier]
